@@ -7,6 +7,9 @@ import SlimModel.Encode
       i8 i16 i32 i64 u16 u32 u64 int str16 dummy bytes:<n>
       te:<le|be>:<type>       `*TypeEncoder`; `<type>` is a comma separated prefix term:
                               u8 u16 u32 u64 i8 i16 i32 i64 | a<n>,<type> | s<k>,<type>×k
+      kind:<k> of:<k> sliceof:<k>   the encoder `EncoderByKind` / `EncoderOf` / `GetSliceEltEncoder` returns
+                              for kind `<k>` (invalid bool int i8..i64 uint u8..u64 f32 f64 string struct ptr,
+                              `slice.<k>`); a failed lookup answers `err:unknown-elt-type` / `err:not-slice`
   Value `<value>`: decimal for the integer encoders, `x<hex>` for str16 and bytes:<n>, `nil` for
       dummy, for te the leaf integers in field order, comma separated (`-` when there is none).
 
@@ -89,6 +92,34 @@ def parseSpec (s : String) : Option Enc :=
     | _, _ => none
   | _ => none
 
+/-- kinds by the names the harness uses; `slice.<k>` is a slice of `<k>` -/
+def parseKindAtom : String → Option Kind
+  | "invalid" => some .invalid | "bool" => some .bool | "int" => some .int | "i8" => some .int8
+  | "i16" => some .int16 | "i32" => some .int32 | "i64" => some .int64 | "uint" => some .uint
+  | "u8" => some .uint8 | "u16" => some .uint16 | "u32" => some .uint32 | "u64" => some .uint64
+  | "f32" => some .float32 | "f64" => some .float64 | "string" => some .string
+  | "struct" => some .struct | "ptr" => some .ptr
+  | _ => none
+
+def parseKind (s : String) : Option Kind :=
+  let rec go : List String → Option Kind
+    | [a] => parseKindAtom a
+    | "slice" :: rest => (go rest).map Kind.slice
+    | _ => none
+  go (s.splitOn ".")
+
+def showLookupErr : LookupErr → String
+  | .unknownEltType => "err:unknown-elt-type"
+  | .notSlice => "err:not-slice"
+
+/-- specs `kind:<k>`, `of:<k>`, `sliceof:<k>`: the encoder comes from the lookup API of package encode -/
+def parseLookup (s : String) : Option (Except LookupErr Enc) :=
+  match s.splitOn ":" with
+  | ["kind", k] => (parseKind k).map encoderByKind
+  | ["of", k] => (parseKind k).map encoderOf
+  | ["sliceof", k] => (parseKind k).map getSliceEltEncoder
+  | _ => none
+
 /-! flat leaf lists ↔ structured values, directed by the type -/
 
 def unflatRep (f : List Int → Option (Val × List Int)) : Nat → List Int → Option (List Val × List Int)
@@ -168,7 +199,10 @@ def showE {α : Type} (f : α → String) : Except Err α → String
 def step (st : State) (toks : List String) : State × String :=
   match toks with
   | ["enc.rt", spec, val, tail] =>
-    match parseSpec spec, parseHex tail with
+    match parseLookup spec with
+    | some (.error e) => (st, showLookupErr e)
+    | lk =>
+    match (match lk with | some (.ok e) => some e | _ => parseSpec spec), parseHex tail with
     | some e, some tl =>
       match parseVal e val with
       | none => (st, "bad-op")
